@@ -545,6 +545,10 @@ func opName(op string) string {
 		return "Refresh"
 	case "bulkrefresh":
 		return "BulkRefresh"
+	case "all1", "keys1", "coldest1", "hottest1":
+		return "Iteration(abandoned)"
+	case "mkiter", "useiter":
+		return "Iteration(saved)"
 	case "all":
 		return "All"
 	case "keys":
